@@ -21,6 +21,7 @@ import itertools
 import json
 import multiprocessing as mp
 import warnings
+import zlib
 from typing import Any
 
 import numpy as np
@@ -85,6 +86,19 @@ def cases(tier: str) -> list[dict]:
                                 {"op": op, "a": 1, "b": s}, "elementwise", [1, s]))
                 out.append(case(f"{op}/na/{db}/{da}", [inp("x", sh, da)],
                                 {"op": op, "a": s, "b": 1}, "elementwise", [s, 1]))
+    # numerically EQUAL Python scalars of different type, back to back in one process
+    # (1, 1.0, True, 1+0j compare and hash equal: anything keyed on the value alone
+    # would confuse them); both orders
+    py1 = {"b": {"py": "bool", "v": "True"}, "i": {"py": "int", "v": "1"},
+           "f": {"py": "float", "v": "1.0"}, "c": {"py": "complex", "v": "(1+0j)"}}
+    for op in ELEMENTWISE:
+        for da in DTYPES:
+            for order, kinds in (("fwd", "bifc"), ("rev", "cfib")):
+                for k in kinds:
+                    c1 = case(f"{op}/ap1/{da}/{order}/{k}", [inp("x", sh, da)],
+                              {"op": op, "a": 1, "b": py1[k]}, "elementwise", [1, py1[k]])
+                    c1["block"] = f"{op}/{da}/{order}"
+                    out.append(c1)
     # where: condition bool array; branches arrays / scalars
     for da, db in itertools.product(DTYPES, DTYPES):
         out.append(case(f"where/aa/{da}/{db}",
@@ -439,8 +453,13 @@ def main(tier: str, only: list[dict] | None = None) -> int:
     ids = set()
     cs = [c for c in cs if not (c["id"] in ids or ids.add(c["id"]))]
     n = NCPU * 4
+    # cases of one "block" stay together, in order, in one worker process
+    chunks: list[list[dict]] = [[] for _ in range(n)]
+    for k, c in enumerate(cs):
+        b = c.get("block")
+        chunks[(zlib.crc32(b.encode()) if b else k) % n].append(c)
     with mp.Pool(NCPU) as pool:
-        recs = [r for chunk in pool.map(_perform_many, [cs[i::n] for i in range(n) if cs[i::n]])
+        recs = [r for chunk in pool.map(_perform_many, [c for c in chunks if c])
                 for r in chunk]
     by_id = {c["id"]: c for c in cs}
     records = [r for r in recs if r is not None]
